@@ -139,6 +139,45 @@ func VerifDeadlineSingle() {
 	verifReach("expired")
 }
 
+// VerifCancelSecondCaller: request A is blocked in a wait state; request B (another key, its own
+// context) runs into the same state behind it and is then cancelled: B returns promptly with its
+// context's error although A is still waiting (B must not be parked behind A on something that
+// does not watch B's context).
+func VerifCancelSecondCaller() {
+	verifFreezeTime(true)
+	state := verifChoose(wsCount)
+	c, _ := vCancelSetup(state)
+	ctxA, cancelA := context.WithCancel(context.Background())
+	ctxB, cancelB := context.WithCancel(context.Background())
+	ga, _ := hrpc.NewGet(ctxA, []byte("t"), []byte("k"))
+	gb, _ := hrpc.NewGet(ctxB, []byte("t"), []byte("z"))
+	var errA, errB error
+	doneA, doneB := false, false
+	go func() {
+		_, errA = c.SendRPC(ga)
+		doneA = true
+	}()
+	verifQuiesce()
+	verifAssert(!doneA, "request A is blocked in the wait state under test")
+	go func() {
+		_, errB = c.SendRPC(gb)
+		doneB = true
+	}()
+	verifQuiesce()
+	verifAssert(!doneA && !doneB, "both requests are blocked")
+	cancelB()
+	verifQuiesce()
+	verifAssert(doneB, "request B, blocked behind A in state '"+vStateNames[state]+"', returns once its own context is cancelled")
+	verifAssert(errB == context.Canceled, "it returns its context's error")
+	verifAssert(!doneA, "request A keeps waiting")
+	cancelA()
+	verifQuiesce()
+	establishRegionOverride = nil
+	verifAssert(doneA && errA == context.Canceled, "request A returns once its context is cancelled")
+	verifObserveInt("state", state)
+	verifReach("second-cancelled")
+}
+
 // VerifCancelBatch: a batch blocked in any wait state; the batch context or the context of
 // one call of the batch is cancelled (contexts shared or distinct).
 func VerifCancelBatch() {
